@@ -438,10 +438,14 @@ def handleConc (progs : List (List Op)) (obs : List String) : String × String :
         (recs.filter (fun x => x.1 == tid)).length < ops.length)
       if short then ("not-linearizable", "fail:answer-count")
       else
-        let m := match Lin.linearizable Health.accept (fun s => s.watchers.length) Health.init tasks with
+        let v := Lin.linearizable Spec.Health.accept Spec.Health.numWatches [] tasks
+        -- a history the property's clauses reject is a failing input whatever the model says of
+        -- it: the model searches are skipped then (a change that breaks most histories must not
+        -- cost three exhaustive searches per case)
+        let m := if v == .no then .no else
+          match Lin.linearizable Health.accept (fun s => s.watchers.length) Health.init tasks with
           | .no => Lin.linearizable acceptMD (fun s => s.h.watchers.length) ⟨Health.init, []⟩ tasks
           | r => r
-        let v := Lin.linearizable Spec.Health.accept Spec.Health.numWatches [] tasks
         -- a search that ran out of budget decides nothing (neither a disagreement nor a failure)
         (if m == .no then "not-linearizable" else String.intercalate " " obs,
          if v == .no then "fail:not-linearizable" else "ok")
